@@ -220,7 +220,7 @@ def main(chk, tier):
         chk.configs.append(cfgname)
         chk.units = len(db.units)
         chk.functions_analysed += len(db.functions)
-        e = escape.Escape(db, tab, 'TS')
+        e = escape.Escape(db, tab, 'TSR')
         res, reqv = e.run()
         res = [r for r in res if 'Refine' in r[0]['name']]
         if len(res) < 3:
